@@ -1851,6 +1851,7 @@ fn main() {
         handles.into_iter().map(|h| h.join().expect("job panicked")).collect()
     });
     let mut lost = 0;
+    let mut all_failures: Vec<Failure> = vec![];
     for (r, l) in results {
         lost += l;
         rep.evaluations += r.evaluations;
@@ -1861,12 +1862,27 @@ fn main() {
         for s in r.samples {
             rep.sample(s);
         }
-        for f in r.failures {
-            rep.fail(f);
-        }
+        all_failures.extend(r.failures);
         rep.notes.extend(r.notes);
         rep.exhaustive |= r.exhaustive;
         rep.model_requests += r.model_requests;
+    }
+    // the report keeps at most 50 failures: anything outside the recognised classes goes first and is
+    // never displaced by witnesses of the known ones (at most 4 of each of those)
+    let recognised = [D6, D16, D21, D26];
+    let (known, unknown): (Vec<Failure>, Vec<Failure>) = all_failures.into_iter().partition(|f| recognised.contains(&f.class.as_str()));
+    for f in unknown {
+        rep.fail(f);
+    }
+    let mut per_class: BTreeMap<String, u32> = BTreeMap::new();
+    for f in known {
+        let n = per_class.entry(format!("{}|{}", f.kind, f.class)).or_insert(0);
+        *n += 1;
+        if *n <= 4 {
+            rep.fail(f);
+        } else {
+            rep.count("known-class-witnesses-not-listed");
+        }
     }
     rep.write(&args.out);
     println!("c17: {} cases, {} failures, {} worlds lost", rep.evaluations, rep.failures.len(), lost);
